@@ -18,7 +18,7 @@ package stateproof
 //            is the prover's seed (then coins applies) or signedWeight' = 0
 //
 // result:  create=err:<class>
-//          create=ok sw=<signedWeight> nr=<n> pos=<p>,... rev=<p>:<L>:<w>,... coins=ok|bad verify=<verdict>      (mut=none)
+//          create=ok sw=<signedWeight> nr=<n> pos=<p>,... rev=<p>:<L>:<w>,... depth=<sig tree>:<part tree> coins=ok|bad verify=<verdict>   (mut=none)
 //          create=ok coins=ok|bad verify=<verdict>                                                        (mutations)
 //   verdict = ok | err:<class>, class ∈ treedepth toomany zero insufficient salt sig vc noreveal coinrange
 //   ("sig" = buildCommittableSignature failed or the signature does not verify; "vc" = either vector-commitment check)
@@ -504,7 +504,16 @@ func verifC39Exec(line string) string {
 		if verifC39MCoins(c, &in, v.lnProvenWeight) != o.mcoins {
 			coinsOK = "bad"
 		}
-		verdict := verifC39ErrClass(v.Verify(basics.Round(in.round), in.data, in.sp))
+		verr := v.Verify(basics.Round(in.round), in.data, in.sp)
+		verdict := verifC39ErrClass(verr)
+		if strings.HasPrefix(verdict, "err:other") {
+			// an error of buildCommittableSignature (it is returned unwrapped): recognised by re-running that function
+			for _, r := range in.sp.Reveals {
+				if _, e := buildCommittableSignature(r.SigSlot); e != nil && e.Error() == verr.Error() {
+					verdict = "err:sig"
+				}
+			}
+		}
 		if o.mut[0] != "none" {
 			return fmt.Sprintf("create=ok coins=%s verify=%s", coinsOK, verdict)
 		}
@@ -521,7 +530,8 @@ func verifC39Exec(line string) string {
 		if rv == "" {
 			rv = "-"
 		}
-		return fmt.Sprintf("create=ok sw=%d nr=%d pos=%s rev=%s coins=%s verify=%s", sp.SignedWeight, nr, verifC39Join(sp.PositionsToReveal), rv, coinsOK, verdict)
+		return fmt.Sprintf("create=ok sw=%d nr=%d pos=%s rev=%s depth=%d:%d coins=%s verify=%s", sp.SignedWeight, nr, verifC39Join(sp.PositionsToReveal), rv,
+			sp.SigProofs.TreeDepth, sp.PartProofs.TreeDepth, coinsOK, verdict)
 	})
 	if strings.HasPrefix(res, "PANIC") {
 		return "PANIC"
@@ -604,7 +614,7 @@ func verifC39GenCase(rng *vh.Rng, idx int) verifC39Op {
 		}
 	}
 	// proven weight relative to the signed weight: just below / at / just above the threshold, and comfortable margins
-	switch rng.Intn(10) {
+	switch rng.Intn(20) {
 	case 0:
 		o.pw = sw // not ready: signed weight must EXCEED the proven weight
 	case 1:
@@ -619,10 +629,12 @@ func verifC39GenCase(rng *vh.Rng, idx int) verifC39Op {
 		o.pw = sw - sw/8
 	case 4:
 		o.pw = 0 // ln(0) rejected by MakeProver
-	case 5, 6:
+	case 5, 6, 7, 8, 9:
 		o.pw = sw/2 + 1
-	case 7:
+	case 10, 11:
 		o.pw = sw/4 + 1
+	case 12, 13:
+		o.pw = sw - sw/3 // just above the threshold: many reveals
 	default:
 		o.pw = sw/uint64(3+rng.Intn(200)) + 1
 	}
